@@ -1,6 +1,8 @@
 import LyModel.XmlTree.Model
 import LyModel.XmlTree.Spec
-/-! driver op of component `xmltree`: `print <rows-hex>` — rows as printed by harness `api_rt` (`view`). -/
+import LyModel.XmlTree.Opaq
+/-! driver ops of component `xmltree`: `print <rows-hex>` — rows as printed by harness `api_rt` (`view`);
+    `opaqprint <view-hex>` — the opaque-node view of harness op `opaqview`, printed by the v2 model with `Fixes.current`. -/
 namespace LyModel.XmlTree.Drv
 open LyModel LyModel.XmlTree
 
@@ -57,6 +59,90 @@ def dumpElems (d : Nat) : List XmlDoc.XElem → List String
   | e :: r => dumpElem d e ++ dumpElems d r
 end
 
+/-! ### the opaque-node view (`ovw_r` in `harness/api_rt.c`) -/
+
+/-- `~` = NULL, otherwise hex (`-` = empty) -/
+def decOpt (s : String) : Option (Option Bytes) :=
+  if s == "~" then some none else (Hex.dec s).map some
+
+/-- `<k> (<prefix|~> <uri>){k}` and nothing after it -/
+def parsePairs : (k : Nat) → List String → Option PfxData
+  | 0, [] => some []
+  | 0, _ :: _ => none
+  | k + 1, p :: u :: r => do
+    let pp ← decOpt p
+    let uu ← Hex.dec u
+    let t ← parsePairs k r
+    pure ((pp, uu) :: t)
+  | _ + 1, _ => none
+
+structure ORow where
+  depth : Nat
+  name : Bytes
+  pfx : Option Bytes
+  ns : Option Bytes
+  value : Bytes
+  valPfx : PfxData
+  attrs : List OAttr
+
+/-- one line of the view; `none` = malformed, `some none` = outside the model's fragment (data node, JSON-format names) -/
+def parseOLine (line : String) : Option (Option (Sum ORow OAttr)) :=
+  match (line.splitOn " ").filter (· ≠ "") with
+  | "N" :: d :: fmt :: name :: pfx :: ns :: v :: k :: rest =>
+    if fmt != "x" then some none else do
+      let depth ← d.toNat?
+      let nm ← Hex.dec name
+      let p ← decOpt pfx
+      let n ← decOpt ns
+      let vb ← Hex.dec v
+      let kk ← k.toNat?
+      let pd ← parsePairs kk rest
+      pure (some (.inl { depth, name := nm, pfx := p, ns := n, value := vb, valPfx := pd, attrs := [] }))
+  | "A" :: fmt :: pfx :: ns :: name :: v :: k :: rest =>
+    if fmt != "x" then some none else do
+      let p ← decOpt pfx
+      let n ← decOpt ns
+      let nm ← Hex.dec name
+      let vb ← Hex.dec v
+      let kk ← k.toNat?
+      let pd ← parsePairs kk rest
+      pure (some (.inr { pfx := p, ns := n, name := nm, value := vb, valPfx := pd }))
+  | _ => none
+
+/-- attach the `A` lines to the preceding `N` line -/
+def groupRows (l : List (Sum ORow OAttr)) : Option (List ORow) :=
+  let step (acc : Option (List ORow)) (x : Sum ORow OAttr) : Option (List ORow) :=
+    match acc, x with
+    | none, _ => none
+    | some rs, .inl r => some (r :: rs)
+    | some [], .inr _ => none
+    | some (r :: rs), .inr a => some ({ r with attrs := r.attrs ++ [a] } :: rs)
+  (l.foldl step (some [])).map List.reverse
+
+def buildO : (fuel : Nat) → (d : Nat) → List ORow → List ONode × List ORow
+  | 0, _, rs => ([], rs)
+  | _, _, [] => ([], [])
+  | fuel + 1, d, r :: rs =>
+    if r.depth != d then ([], r :: rs)
+    else
+      let (kids, rest) := buildO fuel (d + 1) rs
+      let (sibs, rest') := buildO fuel d rest
+      (ONode.mk r.name r.pfx r.ns r.value r.valPfx r.attrs kids :: sibs, rest')
+
+def opaqForest (b : Bytes) : Except String (List ONode) :=
+  let lines := ((String.fromUTF8? (ByteArray.mk b.toArray)).getD "").splitOn "\n" |>.filter (· ≠ "")
+  match lines.mapM parseOLine with
+  | none => .error "BadRows"
+  | some parsed =>
+    match parsed.mapM id with
+    | none => .error "Unsupported"
+    | some rows =>
+      match groupRows rows with
+      | none => .error "BadRows"
+      | some rs =>
+        let (forest, rest) := buildO (2 * rs.length + 2) 0 rs
+        if rest.isEmpty then .ok forest else .error "BadRows"
+
 def handle (op : String) (args : List String) : String :=
   match op, args with
   | "print", [h] =>
@@ -69,6 +155,13 @@ def handle (op : String) (args : List String) : String :=
       | some rows =>
         let (forest, rest) := build (2 * rows.length + 2) 0 rows
         if rest.isEmpty then "ok " ++ Hex.enc (printData forest) else "err BadRows"
+  | "opaqprint", [h] =>
+    match Hex.dec h with
+    | none => "err BadHex"
+    | some b =>
+      match opaqForest b with
+      | .error e => "err " ++ e
+      | .ok forest => "ok " ++ Hex.enc (printOpaqData Fixes.current forest)
   | "specparse", [h] =>
     match Hex.dec h with
     | none => "err BadHex"
